@@ -110,7 +110,8 @@ Print Assumptions c19_rsv_restart.
 
 (* for every history, cut and replay script (wherever the Device objects arrive): the live
    allocateSet lists the assumed and bound objects' allocations, the rebuilt one exactly the bound
-   objects', and both caches' used amounts are the from-scratch sums of what they list *)
+   objects', and both caches' used amounts and virtual-function reference counts are the
+   from-scratch sums / counts of what they list *)
 Theorem c19_dev_restart : forall c, dcase_ok c = true -> forall ops script,
   let l := dlive_after c ops in
   let r := dreplay (d_descs c) (dl_life l) script in
@@ -119,7 +120,8 @@ Theorem c19_dev_restart : forall c, dcase_ok c = true -> forall ops script,
 Proof. exact dev_restart_caches. Qed.
 Print Assumptions c19_dev_restart.
 
-(* the same as the decision procedure the checker runs on the implementation's observables *)
+(* the same as the decision procedure the checker runs on the implementation's observables,
+   including clause 7: a virtual function is taken exactly when a listed allocation carries it *)
 Theorem c19_dev_restart_checked : forall c, dcase_ok c = true -> d_minors c <= 1000 -> prop_dev c (drun c) = 0.
 Proof. exact dev_restart. Qed.
 Print Assumptions c19_dev_restart_checked.
@@ -210,6 +212,6 @@ Example c19_rcase_ok_example :
   rcase_ok (mkRCase 2 true [mkRD 1 1000 1048576; mkRD 2 500 0] [(1, 1); (3, 1); (1, 2)] [(1, 2); (1, 1)]) = true.
 Proof. reflexivity. Qed.
 Example c19_dcase_ok_example :
-  dcase_ok (mkDCase 1 2 (100, 100) (100, 0) true [mkDD 0 1 [(1, [(0, (50, 50))]); (2, [(1, (1, 0))])]]
+  dcase_ok (mkDCase 1 2 (100, 100) (100, 0) true 3 [mkDD 0 1 [(1, [(0, (50, 50))]); (2, [(1, (1, 0))])] [(2, [101; 102])]]
                     [(1, 1); (3, 1)] [(4, 1); (1, 1)]) = true.
 Proof. reflexivity. Qed.
